@@ -89,6 +89,18 @@ def rename_aliases(raw, ref):
             out[n] = m
             taken.add(n)
             perms[m] = [have.index(a) for a in want_args]      # reference position j -> current position perms[m][j]
+    # same name, parameters merely re-ordered (distinct parameter types up to one level of borrow, same return type)
+    for m in sorted(sigs):
+        if m not in cur or m in perms:
+            continue
+        x = cur[m]
+        have_full = [l["ty"] for l in x["locals"][1:1 + x["arg_count"]]]
+        if have_full == list(sigs[m]["args"]) or x["ret_ty"] != sigs[m]["ret"]:
+            continue
+        want_args = [base(a) for a in sigs[m]["args"]]
+        have = [base(a) for a in have_full]
+        if len(set(want_args)) == len(want_args) and sorted(have) == sorted(want_args) and have != want_args:
+            perms[m] = [have.index(a) for a in want_args]
     raw["_param_perms"] = perms
     # moved to another module / file unchanged: same simple name, same parameter and return types, exactly one such item
     for m in sorted(missing):
